@@ -2,6 +2,7 @@ package checks
 
 import (
 	"fmt"
+	"os"
 	"sort"
 	"strings"
 
@@ -94,7 +95,29 @@ func C01(tier string) {
 		}
 		chains = chainWorkload(run.SeedV, tier, ok, len(ok)*len(ok), 0, 3)
 		all := StdCfgs(false)
-		cfgs = []ChainCfg{all[0], all[3], all[4], all[6]}
+		cfgs = []ChainCfg{all[0], all[3]} // field-insensitive only: eager+rewrites, on-demand without rewrites
+		opts := ChainOpts{Cfgs: cfgs, Repeat: 1}
+		var pairs []gen.Chain
+		for _, ch := range chains {
+			if len(ch.Links) == 2 {
+				pairs = append(pairs, ch)
+			}
+		}
+		batches := toBatches(pairs, 45)
+		// incremental: print the failing pairs of each batch as soon as it is done
+		core.Parallel(len(batches), 8, func(bi int) {
+			o := processBatch(run, fmt.Sprintf("t2-%04d", bi), batches[bi], opts)
+			if o.Status != "ok" {
+				fmt.Printf("TRIAGE2 batch %d status %s %s\n", bi, o.Status, firstLine(o.Detail))
+			}
+			for _, m := range FindMisses(o, cfgs, nil) {
+				fmt.Printf("TRIAGE2 MISS %s cfgs=%v\n", gen.Key(m.Chain.Links), m.Cfgs)
+			}
+			_ = os.RemoveAll(o.Dir)
+		})
+		fmt.Println("TRIAGE2 DONE")
+		_ = os.RemoveAll(run.Scratch)
+		os.Exit(0)
 	}
 	opts := ChainOpts{Cfgs: cfgs, Repeat: 1}
 	batches := toBatches(chains, 45)
